@@ -35,12 +35,16 @@ def check_model(case, ctx):
     with sut(detector="ADWIN"):
         det = ADWIN(**p)
     decoy = Decoy(lambda: ADWIN(**p), lambda d, v: d.update(v))
+    p_other = dict(p)
+    p_other["conservative_bound"] = not p["conservative_bound"]
+    decoy2 = Decoy(lambda: ADWIN(**p_other), lambda d, v: d.update(v), every=1)  # same stream, other bound
     fk = Forker(AdwinModel(*[p[k] for k in PKEYS]), copier=lambda m: m.clone())
     ndrift = 0
     for i, x in enumerate(xs):
         k = int(round(x * SCALE))
         assert k / SCALE == x, "generator must stay on the grid"
         decoy.step(40.0 - x)
+        decoy2.step(x)
         with sut(detector="ADWIN"):
             det.update(x)
             obs = {
